@@ -129,3 +129,16 @@ text("C16",
      "seeded concurrent programs (Write / Read with deadline / Close / WaitForClose per tube end, 1-4 reliable and unreliable tubes opened from both sides, Muxer.Stop on either side at drawn instants, also twice and racing Create/Accept) over a network that is healthy, lossy, dead from the start, dying at a drawn instant, one-way dead or lossy-then-dead, with seeded yields (Gosched / micro- and millisecond stalls) armed at instrumented lock/channel/atomic/timer sites of package tubes; oracle: every Close and every Stop returns within 30 simulated seconds, WaitForClose completes within 90 s once both ends closed on a live network or the muxer was stopped, after Stop every tube is closed and Write fails, Read never returns bytes that were not written, after closure Read drains and reports end-of-stream, no panic, and no goroutine of the system is left when the bubble ends (synctest deadlock report)",
      TB + "; interleavings are explored on one P at instrumented synchronisation statements (sequentially consistent); Write/Read blocking on a tube whose initiation never completes is outside the statement and not judged; on a dead network WaitForClose is only required to return once Muxer.Stop is called",
      "deterministic simulation with fault injection (seeded schedule perturbation at instrumented yield points + fault schedules, bounded-liveness and leak oracles)", "DESIGN.md 4 C16")
+
+add("C17", "exploration",
+    [{"name": "deadline-queue", "quick_s": 12, "thorough_s": 300},
+     {"name": "deadline-queue", "quick_s": 12, "thorough_s": 300, "race": True},
+     {"name": "transport-concurrency", "quick_s": 15, "thorough_s": 400},
+     {"name": "transport-concurrency", "quick_s": 25, "thorough_s": 600, "race": True}],
+    real=["common.DeadlineChan / Deadline (yield-instrumented)", "transport.Client, Handle, Server, SessionState (yield-instrumented)", "kravatte, cyclist, keys"],
+    rule=("one evaluation = one small concurrent program (2-6 goroutines, <= 4 operations each, drawn completely before any worker starts) executed in one bubble with seeded yields armed at instrumented synchronisation statements of packages common and transport; "
+          "the same programs run with and without the race detector. Non-trivial = at least one armed yield or fault fired and the history was checked; distinct = distinct event-log hash (the log contains the complete invoke/return history)."))
+text("C17",
+     "seeded concurrent programs over (a) common.DeadlineChan (Send/Recv/SetDeadline/Cancel/Close, capacities 0/1/3), (b) transport.Client against a live or a silent server (Handshake/Read/ReadMsg/Write/WriteMsg/Set*Deadline/Close), (c) a server Handle, (d) a Server (Serve/AcceptTimeout/Close racing incoming handshakes), in both handshake modes, with and without the race detector (halt_on_error); invoke/return events are recorded lock-free with the simulator's event sequence number and checked with porcupine against a FIFO-with-close model (values, order, at-most-once, end-of-stream only after close and after everything queued before it; timeouts permitted at any time); further oracles: every call returns within 30 simulated seconds of the releasing Close, a handshake against a silent server returns by its own HSTimeout, all Close callers get the same result, Write fails after Close, only end-of-stream/timeout class errors, no goroutine left at the end",
+     TB + "; the history recorder and the yield hook are norace functions over preallocated arrays, the simulated network is an actor, so the harness adds no happens-before edge between goroutines of the system; porcupine Unknown (timeout) is inconclusive and never reported",
+     "deterministic simulation with fault injection (seeded schedule perturbation + race detector + porcupine linearizability check of recorded histories)", "DESIGN.md 4 C17")
